@@ -71,6 +71,44 @@ type c01HostsRec struct {
 	names []string
 }
 
+// c01Lease is one lease of the DHCP fake.
+type c01Lease struct {
+	name string
+	ip   netip.Addr
+}
+
+// c01DHCP is the state behind the [testDHCP] closures of an environment.
+type c01DHCP struct {
+	mu     sync.Mutex
+	on     bool
+	leases []c01Lease
+}
+
+func (d *c01DHCP) set(on bool, leases []c01Lease) {
+	d.mu.Lock()
+	defer d.mu.Unlock()
+	d.on, d.leases = on, leases
+}
+
+func (d *c01DHCP) enabled() (ok bool) {
+	d.mu.Lock()
+	defer d.mu.Unlock()
+
+	return d.on
+}
+
+func (d *c01DHCP) ipByHost(host string) (ip netip.Addr) {
+	d.mu.Lock()
+	defer d.mu.Unlock()
+	for _, l := range d.leases {
+		if l.name == host {
+			return l.ip
+		}
+	}
+
+	return netip.Addr{}
+}
+
 type c01Case struct {
 	extraProbes [][2]string
 
@@ -83,6 +121,9 @@ type c01Case struct {
 	sbSet, parSet    []string
 	// authority section of the scripted upstream answer
 	uns []dns.RR
+	// the built-in DHCP server: enabled?  its leases (host name -> address); local domain "lan"
+	dhcpOn bool
+	leases []c01Lease
 
 	mode       string
 	bip4, bip6 netip.Addr
@@ -360,6 +401,10 @@ func (c *c01Case) extFields() (f []string) {
 	for _, rr := range c.uns {
 		f = append(f, c01RRTok(rr, true))
 	}
+	f = append(f, vutil.B(c.dhcpOn), strconv.Itoa(len(c.leases)))
+	for _, l := range c.leases {
+		f = append(f, vutil.Hex(l.name), c01IPTok(l.ip, ""))
+	}
 
 	return f
 }
@@ -455,6 +500,11 @@ func c01Decode(f []string) (c *c01Case) {
 	c.sbSet, c.parSet = r.strs(), r.strs()
 	for n := r.int(); n > 0; n-- {
 		c.uns = append(c.uns, c01ParseRR(r.next()))
+	}
+	c.dhcpOn = r.bool()
+	for n := r.int(); n > 0; n-- {
+		name := r.str()
+		c.leases = append(c.leases, c01Lease{name: name, ip: c01ParseIPTok(r.next())})
 	}
 	c.mode = r.next()
 	c.bip4, c.bip6 = c01ParseIPTok(r.next()), c01ParseIPTok(r.next())
@@ -726,6 +776,7 @@ type c01Env struct {
 	storage *client.Storage
 	sbCk    *c01Checker
 	parCk   *c01Checker
+	dhcp    *c01DHCP
 	concurrent bool
 	// wedged is set when a request did not return; the server is then replaced
 	wedged    bool
@@ -768,7 +819,7 @@ func (e *c01Env) newFilterConf() *filtering.Config {
 func c01NewEnv(t *testing.T, cacheSize uint32) (e *c01Env) {
 	filtering.InitModule()
 	e = &c01Env{ups: &c01Upstream{}, ql: &c01QueryLog{}, dataDir: t.TempDir(), sbCk: &c01Checker{}, parCk: &c01Checker{},
-		t: t, cacheSize: cacheSize}
+		dhcp: &c01DHCP{}, t: t, cacheSize: cacheSize}
 	e.fconf = e.newFilterConf()
 	f, err := filtering.New(e.fconf, nil)
 	if err != nil {
@@ -777,9 +828,9 @@ func c01NewEnv(t *testing.T, cacheSize uint32) (e *c01Env) {
 	e.f = f
 	s, err := NewServer(DNSCreateParams{
 		DHCPServer: &testDHCP{
-			OnEnabled:  func() (ok bool) { return false },
+			OnEnabled:  e.dhcp.enabled,
 			OnHostByIP: func(ip netip.Addr) (host string) { return "" },
-			OnIPByHost: func(host string) (ip netip.Addr) { return netip.Addr{} },
+			OnIPByHost: e.dhcp.ipByHost,
 		},
 		DNSFilter:   f,
 		QueryLog:    e.ql,
@@ -865,6 +916,7 @@ func (e *c01Env) apply(c *c01Case) {
 	fc.EtcHosts = hs
 	fc.SafeBrowsingEnabled, fc.ParentalEnabled = c.sbOn, c.parOn
 	fc.SafeBrowsingBlockHost, fc.ParentalBlockHost = c.sbHost, c.parHost
+	e.dhcp.set(c.dhcpOn, c.leases)
 	e.sbCk.blocked, e.parCk.blocked = map[string]bool{}, map[string]bool{}
 	for _, h := range c.sbSet {
 		e.sbCk.blocked[h] = true
@@ -990,7 +1042,9 @@ func (e *c01Env) query(cip netip.Addr, qname string, qtype uint16) (obs []string
 	req.Question = []dns.Question{{Name: qname, Qtype: qtype, Qclass: dns.ClassINET}}
 	// TCP code path: over UDP dnsproxy truncates an upstream answer above 512
 	// bytes (no EDNS in the request) inside Resolve, before any filtering.
-	pctx := &proxy.DNSContext{Proto: proxy.ProtoTCP, Req: req, Addr: netip.AddrPortFrom(cip, 34567)}
+	// The client counts as one of the private network (dnsproxy derives the flag from the
+	// address; only processDHCPHosts reads it).
+	pctx := &proxy.DNSContext{Proto: proxy.ProtoTCP, Req: req, Addr: netip.AddrPortFrom(cip, 34567), IsPrivateClient: true}
 
 	var err error
 	done := make(chan struct{})
@@ -1637,9 +1691,12 @@ func c01ConfigGenFor(pfx string) func(r *rand.Rand, emit vutil.Emit) {
 				if r.IntN(4) == 0 {
 					d = "www." + d
 				}
+				if r.IntN(2) == 0 {
+					d = c01MixCase(r, d)
+				}
 				if pfx == "C02" {
 					// the name itself is clean; the upstream answer reveals d through a CNAME
-					op("cqa", vutil.Hex("site-"+strconv.Itoa(r.IntN(50))+".clean.example."), strconv.Itoa(int(vutil.Pick(r, []uint16{dns.TypeA, dns.TypeA, dns.TypeAAAA}))), vutil.Hex(d))
+					op("cqa", vutil.Hex(c01MixCase(r, "site-"+strconv.Itoa(r.IntN(50))+".clean.example.")), strconv.Itoa(int(vutil.Pick(r, []uint16{dns.TypeA, dns.TypeA, dns.TypeAAAA}))), vutil.Hex(d))
 
 					return
 				}
@@ -2062,7 +2119,9 @@ func c01GenCase(r *rand.Rand) (c *c01Case) {
 	case 2:
 		name = ""
 	}
-	if r.IntN(4) == 0 {
+	c01GenDHCP(r, c, &name)
+	if r.IntN(2) == 0 {
+		// the client's own spelling: any letter may be in either case
 		name = c01MixCase(r, name)
 	}
 	c.qname = name + "."
@@ -2128,6 +2187,29 @@ func c01GenCase(r *rand.Rand) (c *c01Case) {
 	c01ExtraProbes(r, c, target)
 
 	return c
+}
+
+// c01GenDHCP switches the built-in DHCP server on in a third of the cases (a
+// couple of leases, local domain "lan") and then sometimes asks for a DHCP-client
+// name: leased, not leased, not an immediate sub-domain.
+func c01GenDHCP(r *rand.Rand, c *c01Case, name *string) {
+	if r.IntN(3) != 0 {
+		return
+	}
+	c.dhcpOn = true
+	all := []c01Lease{{"printer", netip.MustParseAddr("192.168.10.5")}, {"nas", netip.MustParseAddr("192.168.10.6")},
+		{"tv-2", netip.MustParseAddr("10.0.0.77")}}
+	for _, l := range all {
+		if r.IntN(2) == 0 {
+			c.leases = append(c.leases, l)
+		}
+	}
+	if r.IntN(4) == 0 {
+		*name = vutil.Pick(r, []string{"printer.lan", "nas.lan", "tv-2.lan", "ghost.lan", "ghost.lan", "deep.ghost.lan", "lan", "printer.lan.example.org", "printerlan"})
+		if r.IntN(4) > 0 {
+			c.qtype = vutil.Pick(r, []uint16{dns.TypeA, dns.TypeA, dns.TypeAAAA})
+		}
+	}
 }
 
 var c01BlockHosts = []string{"", "198.51.100.66", "2001:db8::bad", "standard-block.dns.adguard.com", "family-block.dns.adguard.com"}
@@ -2315,6 +2397,9 @@ func c01ReloadGen(r *rand.Rand, emit vutil.Emit) {
 			qt := c.qtype
 			if i >= len(names) {
 				qt = vutil.Pick(r, c01Qtypes)
+			}
+			if r.IntN(2) == 0 {
+				n = c01MixCase(r, n)
 			}
 			emit("C01.rq", vutil.Hex(n), strconv.Itoa(int(qt)), "8", "3")
 		}
